@@ -29,10 +29,11 @@ def cubes(tier, has_fc):
             for fd in (False, True):
                 cjs = [0] if kind == 1 else [0, 1, 2]
                 for cj in cjs:
-                    pfcs = [False, True] if (has_fc and kind != 1) else [False]
+                    pfcs = [False, True] if (has_fc and kind != 1 and (tier != 'quick' or cj == 0)) else [False]      # quick: fast-check preference with check_js=true only
                     for pfc in pfcs:
-                        # quick: the identity of the reported error is decided on the cubes without fast-check preference only
-                        out.append({'N': N, 'D': D, 'I': I, 'kind': kind, 'fd': fd, 'cj': cj, 'pfc': pfc, 'valid': False, 'identity': (tier != 'quick') or not pfc})
+                        # quick (must stay well under 15 min on a loaded machine): the identity of the reported error and the vacuity witnesses are
+                        # decided on the check_js=true cubes without fast-check preference only; the thorough tier decides them on every cube
+                        out.append({'N': N, 'D': D, 'I': I, 'kind': kind, 'fd': fd, 'cj': cj, 'pfc': pfc, 'valid': False, 'identity': (tier != 'quick') or (not pfc and cj == 0), 'witnesses': (tier != 'quick') or cj == 0})
         out.append({'N': N, 'D': D, 'I': I, 'kind': 1, 'fd': False, 'cj': 0, 'pfc': False, 'valid': True})
     # per-edge kernel: check_resolution on an arbitrary (module, resolution) pair, larger universe (no walk is unrolled)
     for fd in (False, True):
@@ -156,8 +157,9 @@ def build(mir, cube):
         # (a case split on the error category was tried and made z3 3-6x slower per case: one query it stays)
         qs.append(Query('reported-error-identifies-a-reachable-failure', z3.And(val.is_err, z3.Not(Or(ok_id))), ops=[val], world=w, known=known[1:]))
     # vacuity witnesses
-    qs.append(Query('witness-fails', z3.And(val.is_err, inplace), expect='sat', kind='witness', ops=[val], world=w))
-    qs.append(Query('witness-passes-with-unreachable-failure', z3.And(z3.Not(val.is_err), Or(w.is_err(i) for i in range(N))), expect='sat', kind='witness', ops=[val], world=w))
+    if cube.get('witnesses', True):
+        qs.append(Query('witness-fails', z3.And(val.is_err, inplace), expect='sat', kind='witness', ops=[val], world=w))
+        qs.append(Query('witness-passes-with-unreachable-failure', z3.And(z3.Not(val.is_err), Or(w.is_err(i) for i in range(N))), expect='sat', kind='witness', ops=[val], world=w))
     if cube['kind'] == 1 or cube['valid']:
         type_only_fail = Or(z3.And(w.has_deps(i), d['p'], d['type'][0] == 2) for i in range(N) for d in w.mods[i]['deps'])
         qs.append(Query('witness-type-only-failure-does-not-fail-code-validation', z3.And(z3.Not(val.is_err), type_only_fail, w.gkind == 0, Or(rootsel)), expect='sat', kind='witness', ops=[val], world=w))
